@@ -129,7 +129,7 @@ def make_genfunc(ops, mon, label, decorated, ret=None):
             if k == "yield":
                 try:
                     got = yield ("y", op["val"])
-                    mon.trace.append((label, "recv", got))
+                    mon.trace.append((label, "recv", mon.sent.get(id(got), got) if isinstance(got, BaseException) else got))
                 except BaseException as e:
                     cls = CATCH.get(op.get("catch"))
                     if cls is None or not isinstance(e, cls):
@@ -287,6 +287,11 @@ def execute(bodies, script, decorated, tape):
                     ev = ("yielded", out)
                 elif st["op"] == "send":
                     v = ("v", st["val"])
+                    if st["val"] % 5 == 0:
+                        # an exception instance sent as ordinary data must arrive as data, not be raised
+                        v = ValueError("sent as data %d" % st["val"])
+                        mon.sent[id(v)] = "data-exception-%d" % st["val"]
+                        sent_objs[st["val"]] = v
                     out = g.send(v)
                     ev = ("yielded", out)
                 elif st["op"] == "throw":
